@@ -487,6 +487,23 @@ pub fn oracle(shape: &Shape, origin: Origin, p: &Provided, info: &mut CaseInfo) 
     same("P6: calculate() vs fresh builder with the generated state", &via_calc, &fresh.calculate())?;
     info.comparisons += 6;
     let _ = via_calc.dump();
+    // P7: generate_state() stores the state it returns, so from then on the builder is the builder that was handed that
+    // state explicitly - also when the score origin is changed afterwards (every field of the state was stored, not only
+    // the ones the first origin looks at)
+    let handed = p.apply(shape.attrs(), origin).state(s1.clone());
+    for o2 in [Origin::Lazer, Origin::Stable, Origin::LazerClassic, Origin::LazerClassicHeadAcc, Origin::StableClassicHeadAcc] {
+        if o2 == origin {
+            continue;
+        }
+        let mut a = o2.apply_setters(builder.clone(), shape.mode());
+        let mut b = o2.apply_setters(handed.clone(), shape.mode());
+        let (sa, sb) = (a.generate_state(), b.generate_state());
+        if sa != sb {
+            return Err(format!("P7: after generate_state() under {origin:?} and a switch to {o2:?} the builder generates {sa:?}, the builder handed the first state generates {sb:?}"));
+        }
+        same("P7: calculate() after an origin switch, generating builder vs builder handed the state", &a.calculate(), &b.calculate())?;
+        info.comparisons += 2;
+    }
     Ok(())
 }
 
@@ -613,7 +630,7 @@ pub fn property() -> Property {
         id: "C12",
         subchecks: vec![SubCheck {
             name: "generated-state-predicates",
-            rule: "G-ATTR shapes of all four modes (every count 0..12, occasionally up to 1500; zero sliders / zero circles / zero droplets explicit) x origin stable / lazer / lazer+Classic / lazer+Classic with slider-head accuracy switched back on (each expressed through a Difficulty or through the Performance setters) x each of accuracy, combo, misses and every hit-result setter independently absent or 0..N+3 (occasionally up to 2N+5 or huge) x both priorities x passed_objects absent or 0..N+2. Oracle (validity predicates on Performance::generate_state()): P1 misses<=objects and kept when they fit; P2 provided results that jointly fit are never lowered, a fully specified exact state is returned unchanged, and (osu!) provided slider-end / tick counts are kept up to their maximum for the score origin; P3 whenever provided results + misses do not exceed N the state sums to exactly N (catch: tiny+tiny-misses = n_tiny); P4 max_combo <= attrs.max_combo - misses (osu, taiko, catch); P5 generating twice gives the same state; P6 calculate() equals a fresh builder given the generated state explicitly (all fields), and that builder regenerates the same state. Non-trivial: >=1 and not all hit results provided, N>=2.",
+            rule: "G-ATTR shapes of all four modes (every count 0..12, occasionally up to 1500; zero sliders / zero circles / zero droplets explicit) x origin stable / lazer / lazer+Classic / lazer+Classic with slider-head accuracy switched back on (each expressed through a Difficulty or through the Performance setters) x each of accuracy, combo, misses and every hit-result setter independently absent or 0..N+3 (occasionally up to 2N+5 or huge) x both priorities x passed_objects absent or 0..N+2. Oracle (validity predicates on Performance::generate_state()): P1 misses<=objects and kept when they fit; P2 provided results that jointly fit are never lowered, a fully specified exact state is returned unchanged, and (osu!) provided slider-end / tick counts are kept up to their maximum for the score origin; P3 whenever provided results + misses do not exceed N the state sums to exactly N (catch: tiny+tiny-misses = n_tiny); P4 max_combo <= attrs.max_combo - misses (osu, taiko, catch); P5 generating twice gives the same state; P6 calculate() equals a fresh builder given the generated state explicitly (all fields), and that builder regenerates the same state; P7 the builder that generated the state and a builder handed it explicitly stay interchangeable when the score origin is switched afterwards to each of the other four origins (state and calculate()). Non-trivial: >=1 and not all hit results provided, N>=2.",
             quick: 150_000,
             thorough: 3_000_000,
             tape_len: 64,
